@@ -30,6 +30,14 @@ impl C17 {
         if let Some(u) = o.note("huge-unowned") {
             return Outcome::Fail(Fail { kind: "stale-tape".into(), detail: format!("{desc} (offsets {}) came back, and the tape reports offset {u} accessible although that cell is outside every block the allocator has handed out", begun.unwrap()), cfg: None });
         }
+        for key in ["huge-after-panic-lost", "huge-after-panic-far-read", "huge-after-return-lost"] {
+            if let Some(u) = o.note(key) {
+                return Outcome::Fail(Fail { kind: "stale-tape".into(), detail: format!("{desc} (offsets {}): {key}={u} - after the request {} the tape no longer holds what was written to it (three marked cells at the pointer must read back, a never-written cell 2^30 or more away must read 0)", begun.unwrap(), if key.contains("panic") { "panicked and the panic was caught" } else { "returned" }), cfg: None });
+            }
+        }
+        if o.note("huge-panicked").is_some() {
+            stats.class("unsatisfiable-request:tape-consistent-after-caught-panic");
+        }
         match (&o.end, &run.exit) {
             (End::Returned(_), _) => stats.class("unsatisfiable-request:returned-with-owned-cells"),
             (End::Panicked(_), _) => stats.class("unsatisfiable-request:ended-by-panic"),
@@ -53,7 +61,7 @@ impl ProgProperty for C17 {
         "fault_enumeration"
     }
     fn rule(&self) -> String {
-        "roaming / structured programs (halting canonical run) x input x width x back end x level x {fresh context, context that already owns a small tape}; the run is first executed under the guard-page allocator without failure to count its allocations, then again with one request refused (returns null): the k-th zero-initialised allocation (tape and interpreter-context requests; k drawn over all of them, or every k in the thorough tier for programs with <= 12 such requests) or, for a quarter of the cases, the k-th allocation of any kind. Oracle on how the child process ends: SIGABRT (allocation-failure abort) or a Rust panic = pass; SIGSEGV/SIGBUS/SIGILL, or a second free of a tape block (a stale owner; detected by the allocator) = violation; a normal return after the refusal is a violation unless the log is the complete canonical sequence (the failure was then evidently handled without harm, e.g. by a successful retry); the events logged before the end must be a canonical prefix. A fifth of the cases refuse nothing and instead, after the program has returned, ask its tape for 2^40..2^62 cells (make_accessible above / below / both sides, a far write, a far move + write): the process may end by abort or panic; if the call returns, every probed offset the tape reports accessible must lie inside a live block of the allocator (`stale-tape` otherwise). Non-trivial: the refused request is a tape re-allocation (an older non-empty tape exists); distinct = distinct (program, input, width, back end, level, k)".into()
+        "roaming / structured programs (halting canonical run) x input x width x back end x level x {fresh context, context that already owns a small tape}; the run is first executed under the guard-page allocator without failure to count its allocations, then again with one request refused (returns null): the k-th zero-initialised allocation (tape and interpreter-context requests; k drawn over all of them, or every k in the thorough tier for programs with <= 12 such requests) or, for a quarter of the cases, the k-th allocation of any kind. Oracle on how the child process ends: SIGABRT (allocation-failure abort) or a Rust panic = pass; SIGSEGV/SIGBUS/SIGILL, or a second free of a tape block (a stale owner; detected by the allocator) = violation; a normal return after the refusal is a violation unless the log is the complete canonical sequence (the failure was then evidently handled without harm, e.g. by a successful retry); the events logged before the end must be a canonical prefix. A fifth of the cases refuse nothing and instead, after the program has returned, ask its tape for 2^40..2^62 cells (make_accessible above / below / both sides, a far write, a far move + write): the process may end by abort or panic; if the call returns, every probed offset the tape reports accessible must lie inside a live block of the allocator (`stale-tape` otherwise); if it panics, the panic is caught first and the tape examined as a caller who goes on would see it - three cells marked before the request must read back, a never-written cell far away must read 0, nothing unbacked may be reported accessible - and then the panic is resumed. Non-trivial: the refused request is a tape re-allocation (an older non-empty tape exists); distinct = distinct (program, input, width, back end, level, k)".into()
     }
     fn assumptions(&self) -> Vec<String> {
         vec!["the guard-page allocator unmaps freed blocks and fences live ones, so touching a null, stale or foreign tape faults instead of passing silently".into()]
